@@ -594,12 +594,18 @@ func c02Deliver(c *fw.C, P, F *simnet.Node, sched string, r *rand.Rand, gossip [
 			}
 			batch = wb
 		}
-		idx, err := F.InsertChain(batch)
+		// the follower's wall clock is not the producer's: it hears the batch minutes, days or years after the slot
+		// of its last momentum, or with a clock that is behind
+		skew := simnet.ClockSkews[r.Intn(len(simnet.ClockSkews))]
+		var idx int
+		var err error
+		simnet.WithClock(batch[len(batch)-1].Momentum.Timestamp.Add(skew), func() { idx, err = F.InsertChain(batch) })
 		c.Eval(1)
+		c.SetAdd("follower_clock_minus_batch_time", skew.String())
 		if err != nil {
 			bad := batch[minInt(idx, len(batch)-1)]
 			c.Violation("follower-refuses-producers-momentum "+sched, map[string]interface{}{
-				"err": err.Error(), "index": idx, "batch_from": h + 1, "batch_to": to,
+				"err": err.Error(), "index": idx, "batch_from": h + 1, "batch_to": to, "follower_clock_minus_batch_time": skew.String(),
 				"momentum": fmt.Sprint(bad.Momentum.Identifier()), "blocks_in_momentum": len(bad.AccountBlocks)})
 			return false
 		}
